@@ -17,22 +17,10 @@ WIDTHS_T = [1, 2, 3, 4, 5, 6, 8, 10, 14, 20, 30]
 FRACS = [1.0, 0.7, 0.5, 0.25]
 
 
-def check_one(mods_, spec, W, frac, strategy, counters=None):
-    D, T, L, Rm, S = mods_
-    doc = LR.build(mods_, spec)
-    layout = L.layout_smart if strategy == 'smart' else L.layout_fast
-    eng = LR.engine_out(mods_, list(layout(doc, width=W, ribbon_frac=frac)))
-    R = LR.ribbon_of(W, frac)
-    m, _ = LR.match(mods_, doc, W, R, eng)
-    if m is None:
-        if counters is not None:
-            counters['skipped_no_legal_assignment'] = counters.get('skipped_no_legal_assignment', 0) + 1
-        return None
+def overflow_of(m, W, R, strategy, counters=None):
+    """the first flat group of assignment m whose text sits on a line longer than min(W, indent + R), or None"""
     out = m.out
     lines = LR.lines_of(out)
-    # ambiguity: several assignments may give the same output; a group is only *known* flat if every matching
-    # assignment has it flat.  We use the first match (fewest flat decisions first), which under-approximates the
-    # set of flat groups: sound (no false alarm), possibly incomplete.
     for g in m.groups:
         if not g['flat'] or not g.get('decided'):
             continue
@@ -51,6 +39,43 @@ def check_one(mods_, spec, W, frac, strategy, counters=None):
                             'at most min(W=%d, indent+R=%d+%d)' % (W, g['indent'], R),
                             ['over-page' if n > W else 'over-ribbon', strategy])
     return None
+
+
+def check_one(mods_, spec, W, frac, strategy, counters=None):
+    D, T, L, Rm, S = mods_
+    doc = LR.build(mods_, spec)
+    layout = L.layout_smart if strategy == 'smart' else L.layout_fast
+    eng = LR.engine_out(mods_, list(layout(doc, width=W, ribbon_frac=frac)))
+    R = LR.ribbon_of(W, frac)
+    # Ambiguity: several assignments may give the same output (two soft lines of which one broke).  The decisions the
+    # engine took are one of the matching assignments, so a violation is reported only when EVERY matching assignment has
+    # a flat group on an overflowing line (no false alarm; possibly incomplete), and only when the enumeration of the
+    # matching assignments was complete.
+    first = None
+    n_match = 0
+    gen = LR.match_all(mods_, doc, W, R, eng)
+    complete = None
+    while True:
+        try:
+            m = next(gen)
+        except StopIteration as e:
+            complete = e.value
+            break
+        n_match += 1
+        r = overflow_of(m, W, R, strategy, counters if n_match == 1 else None)
+        if r is None:
+            return None
+        if first is None:
+            first = r
+    if n_match == 0:
+        if counters is not None:
+            counters['skipped_no_legal_assignment'] = counters.get('skipped_no_legal_assignment', 0) + 1
+        return None
+    if not complete:
+        if counters is not None:
+            counters['undetermined_search_budget'] = counters.get('undetermined_search_budget', 0) + 1
+        return None
+    return first
 
 
 def shard(args):
